@@ -507,7 +507,8 @@ def run_history(scn):
                 with open(os.path.join(ctl, "tidy_" + name), "w") as f:
                     f.write(mode)
             clock = st.get("clock", clock)
-            argv = list(st["argv"])
+            argv = [commits[int(a[len("@commit"):])] if isinstance(a, str) and a.startswith("@commit") and commits else a
+                    for a in st["argv"]]
             head, dirty = None, False
             if scn.get("git") and cmd == "run":
                 head = P.git(root, "rev-parse", "HEAD", check=False) or None
